@@ -50,14 +50,14 @@ func counterOf(in interface{}) int64 {
 }
 
 type scenario struct {
-	Backend string     `json:"backend"`
-	Wrapper string     `json:"wrapper"` // bare | prefix | metrics | multi
+	Backend string `json:"backend"`
+	Wrapper string `json:"wrapper"` // bare | prefix | metrics | multi
 	// gossip store only: after this many steps the key is deleted and the deletion marker is left to expire,
 	// while callers may be in the middle of their function (0 = never)
-	DeleteAt int `json:"delete_at,omitempty"`
-	Kinds   [][]string `json:"kinds"`   // per caller, per op: inc | decline | fail | failretry
-	Plan    []int      `json:"plan"`
-	Seed    bool       `json:"precreate"` // key exists before the callers start
+	DeleteAt int        `json:"delete_at,omitempty"`
+	Kinds    [][]string `json:"kinds"` // per caller, per op: inc | decline | fail | failretry
+	Plan     []int      `json:"plan"`
+	Seed     bool       `json:"precreate"` // key exists before the callers start
 	// steps after which a writer outside the callers completes a whole compare-and-swap on a SECOND key
 	// ("kk", of which the callers' key "k" is a prefix): keys are independent, neither chain may notice
 	Other []int `json:"other_key_writes,omitempty"`
@@ -65,20 +65,26 @@ type scenario struct {
 	// restored snapshot does to a Consul server), while callers may be between their read and their write.
 	// The store was given 400 writes on a third key beforehand, so no index a caller holds can come round again
 	ResetAt int `json:"reset_index_at,omitempty"`
+	// in-memory Consul store only: the client waits up to this long before it tries a CAS again (0 = the
+	// in-memory client's default, no wait; production default 1 s)
+	RetryDelayMs int `json:"cas_retry_delay_ms,omitempty"`
+	// name of the second key (default "kk")
+	OtherName string `json:"other_key,omitempty"`
 }
 
 func (s scenario) String() string {
-	return fmt.Sprintf("backend=%s wrapper=%s precreate=%v kinds=%v plan=%v delete_at=%d other_key_writes=%v reset_index_at=%d", s.Backend, s.Wrapper, s.Seed, s.Kinds, s.Plan, s.DeleteAt, s.Other, s.ResetAt)
+	return fmt.Sprintf("backend=%s wrapper=%s precreate=%v kinds=%v plan=%v delete_at=%d other_key_writes=%v(%q) reset_index_at=%d cas_retry_delay_ms=%d", s.Backend, s.Wrapper, s.Seed, s.Kinds, s.Plan, s.DeleteAt, s.Other, s.OtherName, s.ResetAt, s.RetryDelayMs)
 }
 
 type env struct {
-	consulC   *consul.Client // the store under test when it is the in-memory Consul store
-	client    kv.Client
-	secondary kv.Client // multi wrapper: the store the primary's writes are mirrored to
-	rival     *rivalStore
-	primaryName string
-	closers   []io.Closer
-	mkvs      []*memberlist.KV
+	consulC      *consul.Client // the store under test when it is the in-memory Consul store
+	client       kv.Client
+	secondary    kv.Client // multi wrapper: the store the primary's writes are mirrored to
+	rival        *rivalStore
+	primaryName  string
+	retryDelayMs int
+	closers      []io.Closer
+	mkvs         []*memberlist.KV
 }
 
 func (e *env) close() {
@@ -93,7 +99,7 @@ func (e *env) close() {
 func (e *env) backend(name string) (kv.Client, error) {
 	switch name {
 	case "consul":
-		c, closer := consul.NewInMemoryClient(ring.GetCodec(), log.NewNopLogger(), nil)
+		c, closer := consul.NewInMemoryClientWithConfig(ring.GetCodec(), consul.Config{CasRetryDelay: time.Duration(e.retryDelayMs) * time.Millisecond}, log.NewNopLogger(), nil)
 		e.closers = append(e.closers, closer)
 		if e.consulC == nil && name == e.primaryName {
 			e.consulC = c
@@ -117,7 +123,7 @@ func (e *env) backend(name string) (kv.Client, error) {
 }
 
 func newEnv(sc scenario) (*env, error) {
-	e := &env{primaryName: sc.Backend}
+	e := &env{primaryName: sc.Backend, retryDelayMs: sc.RetryDelayMs}
 	c, err := e.backend(sc.Backend)
 	if err != nil {
 		return nil, err
@@ -290,8 +296,10 @@ func execute(t *testing.T, sc scenario) (out outcome) {
 			}
 		}
 		b.Cleanup(func() { releaseAll(); wg.Wait() })
+		active := 0 // callers started and not yet finished (under mu)
 		runCaller := func(c int) {
 			defer wg.Done()
+			defer func() { mu.Lock(); active--; mu.Unlock() }()
 			for o, kind := range sc.Kinds[c] {
 				var lastIn int64 = -1
 				var lastOut string
@@ -425,11 +433,15 @@ func execute(t *testing.T, sc scenario) (out outcome) {
 		}
 		// the second key: whole compare-and-swap calls by a writer of its own, checked against its own counter
 		otherDone := 0
+		otherKey := sc.OtherName
+		if otherKey == "" {
+			otherKey = "kk"
+		}
 		checkOther := func(where string) {
 			if len(sc.Other) == 0 {
 				return
 			}
-			v, err := client.Get(ctx, "kk")
+			v, err := client.Get(ctx, otherKey)
 			if err != nil {
 				fail("%s: Get of the other key: %v", where, err)
 				return
@@ -445,7 +457,7 @@ func execute(t *testing.T, sc scenario) (out outcome) {
 		}
 		otherWrite := func(where string) {
 			var in int64
-			err := client.CAS(ctx, "kk", func(v interface{}) (interface{}, bool, error) {
+			err := client.CAS(ctx, otherKey, func(v interface{}) (interface{}, bool, error) {
 				in = counterOf(v)
 				d := ring.GetOrCreateRingDesc(v)
 				cnt := d.Ingesters["counter"]
@@ -469,6 +481,20 @@ func execute(t *testing.T, sc scenario) (out outcome) {
 		}
 		step := func(choice int) bool {
 			vx.Wait()
+			if sc.RetryDelayMs > 0 {
+				// a caller may be waiting out the client's retry delay: let the time pass until every running
+				// caller is inside its function again or has finished
+				for k := 0; k < 100; k++ {
+					mu.Lock()
+					waiting := active - len(parked)
+					mu.Unlock()
+					if waiting <= 0 {
+						break
+					}
+					time.Sleep(time.Duration(sc.RetryDelayMs+50) * time.Millisecond)
+					vx.Wait()
+				}
+			}
 			mu.Lock()
 			var parkedIDs []int
 			seen := map[int64]int{}
@@ -503,6 +529,9 @@ func execute(t *testing.T, sc scenario) (out outcome) {
 				c := startable[pick]
 				started[c] = true
 				wg.Add(1)
+				mu.Lock()
+				active++
+				mu.Unlock()
 				go runCaller(c)
 			} else {
 				c := parkedIDs[pick-len(startable)]
@@ -681,6 +710,11 @@ func TestCASSchedulesRapid(t *testing.T) {
 		}
 		if rapid.IntRange(0, 2).Draw(rt, "otherKey") == 0 {
 			sc.Other = rapid.SliceOfN(rapid.IntRange(1, 16), 1, 4).Draw(rt, "otherKeyWrites")
+			// the callers' key is a prefix of it, or differs from it by a leading or trailing slash only
+			sc.OtherName = rapid.SampledFrom([]string{"kk", "/k", "k/"}).Draw(rt, "otherKeyName")
+		}
+		if sc.Backend == "consul" && rapid.Bool().Draw(rt, "casRetryDelay") {
+			sc.RetryDelayMs = rapid.SampledFrom([]int{200, 1000}).Draw(rt, "casRetryDelayMs")
 		}
 		out := execute(t, sc)
 		vx.Eval(1)
